@@ -720,7 +720,7 @@ class Engine:
             raise SXAbortPath()
 
     # -- forking
-    def decide(self, t):
+    def decide(self, t, true_side_feasible=False):
         if isinstance(t, SymBool):
             t = t.t
         s = z3.simplify(t)
@@ -731,7 +731,7 @@ class Engine:
         key = s.get_id()
         if key in self.decided:
             return self.decided[key]
-        can_t, _ = self._check(s)
+        can_t = True if true_side_feasible else self._check(s)[0]
         if not can_t:
             self.decided[key] = False
             self.solver.add(z3.Not(s))
@@ -766,7 +766,7 @@ class Engine:
             v = self.solver.model().eval(s, model_completion=True).as_long()
             self.stats.solver_s += time.time() - t0
             self.stats.queries += 1
-            if self.decide(s == v):
+            if self.decide(s == v, true_side_feasible=True):  # v comes from a model of the path
                 return v
         raise SXError("realize: too many candidate values (unbounded symbolic int?)")
 
